@@ -488,7 +488,8 @@ func c06R4(a *A, r *Roles) {
 		}
 	}
 	a.atLeast(rule, "classify@", 4)
-	// sentinel referenced only by the decoder (under EOF), Error() and init
+	// sentinel referenced only by the decoder (under EOF), Error() (and functions only Error() calls) and init
+	errPrivate := readerPrivate(w, r.ErrorM)
 	m := 0
 	for _, fn := range w.srcFuncs(w.Root) {
 		instrs(fn, func(in ssa.Instruction) {
@@ -496,7 +497,7 @@ func c06R4(a *A, r *Roles) {
 			for _, op := range in.Operands(ops) {
 				if *op == ssa.Value(sentinel) {
 					m++
-					ok := fn == r.ErrorM || fn.Name() == "init" || (fn == f && classOf(in.Block())["PacketEOF"])
+					ok := fn == r.ErrorM || errPrivate[fn] || fn.Name() == "init" || (fn == f && classOf(in.Block())["PacketEOF"])
 					a.check(ok, rule, fmt.Sprintf("sentinel-use@%s#%d", fn.Name(), m), w.posOf(in), "sentinel used by the EOF classification / the filter", "the EOF sentinel is produced or compared somewhere else: another ending can masquerade as the master's EOF")
 				}
 			}
@@ -588,6 +589,7 @@ func c06R6(a *A, r *Roles) {
 		return
 	}
 	// allowed edges into nil returns
+	var sentinelPred func(p *ssa.Function, depth int) bool
 	allowed := func(b *ssa.BasicBlock, k int) bool {
 		iff, ok := lastInstr(b).(*ssa.If)
 		if !ok {
@@ -602,7 +604,71 @@ func c06R6(a *A, r *Roles) {
 		if bo, ok := iff.Cond.(*ssa.BinOp); ok && bo.Op == token.EQL && k == 0 {
 			return isSentinelLoad(bo.X) || isSentinelLoad(bo.Y)
 		}
+		// a predicate of the package that is true only through such equalities
+		if c, ok := iff.Cond.(*ssa.Call); ok && k == 0 {
+			if cal := c.Common().StaticCallee(); cal != nil && cal.Pkg == w.Root && cal.Blocks != nil && !c.Common().IsInvoke() && sentinelPred != nil {
+				return sentinelPred(cal, 0)
+			}
+		}
 		return false
+	}
+	sentinelPred = func(p *ssa.Function, depth int) bool {
+		if depth > 1 {
+			return false
+		}
+		a.touch(p)
+		eqAllowed := func(b *ssa.BasicBlock, k int) bool {
+			iff, ok := lastInstr(b).(*ssa.If)
+			if !ok {
+				return false
+			}
+			bo, ok := iff.Cond.(*ssa.BinOp)
+			return ok && bo.Op == token.EQL && k == 0 && (isSentinelLoad(bo.X) || isSentinelLoad(bo.Y))
+		}
+		viaAllowed := func(b *ssa.BasicBlock) bool {
+			return b != p.Blocks[0] && !reachesAvoiding(p.Blocks[0], b, nil, eqAllowed)
+		}
+		var okVal func(v ssa.Value, at *ssa.BasicBlock, d int) bool
+		okVal = func(v ssa.Value, at *ssa.BasicBlock, d int) bool {
+			if d > 4 {
+				return false
+			}
+			if b, isC := constBool(v); isC {
+				return !b || viaAllowed(at)
+			}
+			if bo, ok := v.(*ssa.BinOp); ok && bo.Op == token.EQL {
+				return isSentinelLoad(bo.X) || isSentinelLoad(bo.Y)
+			}
+			if phi, ok := v.(*ssa.Phi); ok {
+				for i, e := range phi.Edges {
+					pred := phi.Block().Preds[i]
+					if b, isC := constBool(e); isC && b {
+						edgeOK := false
+						for k, sc := range pred.Succs {
+							if sc == phi.Block() && eqAllowed(pred, k) {
+								edgeOK = true
+							}
+						}
+						if !edgeOK && !viaAllowed(pred) {
+							return false
+						}
+						continue
+					}
+					if !okVal(e, pred, d+1) {
+						return false
+					}
+				}
+				return true
+			}
+			return false
+		}
+		rets := returnsOf(p)
+		for _, ret := range rets {
+			if len(ret.Results) != 1 || !okVal(ret.Results[0], ret.Block(), 0) {
+				return false
+			}
+		}
+		return len(rets) > 0
 	}
 	n := 0
 	sawDefault := false
